@@ -334,6 +334,11 @@ CheckDec17(e) ==
        jsonbits |-> OkOnly1("jsonbits", LAMBDA v : JsonDenotes(x, v, n)),
        bincode |-> OkOnly1("bincode", LAMBDA v : /\ Len(x) >= 8 + nb /\ LEVal(SubSeq(x, 1, 8)) = FromNat(nb)
                                                   /\ v = BEVal(SubSeq(x, 9, 8 + nb)) /\ Lt2(v, n)),
+       \* the serde visitor's integer and byte-string entry points: a number handed over by the data format denotes itself; a
+       \* byte string is the big-endian binary form of exactly BYTES bytes (what the binary serializer writes)
+       serde_u64 |-> Len(x) < 8 \/ OkOnly1("serde_u64", LAMBDA v : v = LEVal(SubSeq(x, 1, 8)) /\ Lt2(v, n)),
+       serde_u128 |-> Len(x) < 16 \/ OkOnly1("serde_u128", LAMBDA v : v = LEVal(SubSeq(x, 1, 16)) /\ Lt2(v, n)),
+       serde_bytes |-> OkOnly1("serde_bytes", LAMBDA v : Len(x) = nb /\ v = BEVal(x) /\ Lt2(v, n)),
        \* conversions from big integers are total functions of the value
        biguint |-> Eq(e, "biguint", IF big THEN Ok1(LEVal(x)) ELSE Err),
        bigint |-> Eq(e, "bigint", IF big THEN Ok1(LEVal(x)) ELSE Err),
